@@ -341,6 +341,59 @@ pub fn run(ctx: &Ctx, rep: &mut Report) {
         rep.add_space(&format!("all {} slot orders of {} base {}-slot hands x 5 entry points", orders.len(), bases.len(), n), &acc, t0, "distinct cards, one/two/three blanks in varying slots, a repeated card - in every arrangement of all the slots");
     }
 
+    // (2c) call sequences: every ordered pair over a small alphabet of hands per size (real hands, blank-containing hands,
+    //      repeated-card hands), single-threaded - a memo of the previous hand must not leak a real rank into a blank five
+    for n in [5usize, 6, 7] {
+        let t0 = Instant::now();
+        let al = sub_alphabet(12);
+        let mut hands: Vec<Vec<u32>> = Vec::new();
+        for shift in 0..6usize {
+            let cards: Vec<u32> = (0..n).map(|i| al[1 + (i + shift) % 11]).collect();
+            hands.push(cards.clone());
+            for pos in [0usize, n / 2, n - 1] {
+                let mut b = cards.clone();
+                b[pos] = 0;
+                hands.push(b);
+            }
+            let mut dup = cards.clone();
+            dup[1] = dup[0];
+            hands.push(dup);
+        }
+        hands.push(vec![0; n]);
+        let accs = par_parts(1, |_| {
+            let mut acc = Acc::new(H_LEN);
+            for a in &hands {
+                for b in &hands {
+                    for e in ENTRIES {
+                        acc.cases += 1;
+                        acc.calls += 2;
+                        acc.nontrivial += 1;
+                        let r = guard(|| (call(e, a), call(e, b)));
+                        let need_zero = n == 5 && b.contains(&0);
+                        let ok = match r {
+                            Ok((Some(_), Some((v, inv)))) => !need_zero || (v == 0 && inv),
+                            _ => false,
+                        };
+                        if !ok {
+                            // attribute: does b alone behave? then the predecessor matters
+                            let size = AnyHand::size_name(n);
+                            match super::confirm(judge, Case::w32(&format!("{}.{}", size, e), b)) {
+                                Some(v) => acc.violate(v),
+                                None => match super::confirm(judge, Case::w32(&format!("{}.{}", size, e), a)) {
+                                    Some(v) => acc.violate(v),
+                                    None => super::unreproduced(&format!("C05 sequence {} on {:?} then {:?}: wrong or panicking only in sequence, not reproduced alone", e, a, b)),
+                                },
+                            }
+                        }
+                    }
+                }
+            }
+            acc
+        });
+        let acc = Acc::merged(accs);
+        rep.add_space(&format!("histories: every ordered pair of {} {}-slot hands (real, blank-containing, repeated-card) x 5 entry points", hands.len(), n), &acc, t0, "single-threaded call sequences of length two");
+    }
+
     // (3) the public product-search helper, every key
     {
         let t0 = Instant::now();
